@@ -117,6 +117,8 @@ class Interp:
             if isinstance(n, ast.Call) and id(n) not in self._seen_calls:
                 try:
                     self.value(n, env)
+                except Crash:
+                    raise
                 except Unknown:
                     pass
         rec(node)
@@ -252,9 +254,13 @@ class Interp:
             raise Unknown('call of %s without a value for %s' % (callee.name, missing))
         sub = Interp(self.call_hook, self.effect_names, self.budget, self.resolver, self.depth + 1, self.store_effects, self.attr_hook, self.try_normal_path)
         finals = sub.run(callee.body, e2)
+        if len(finals) == 1 and finals[0].get('<crash>'):
+            raise Crash(finals[0]['<crash>'])
         if len(finals) != 1 or finals[0].get('<forks>'):
             raise Unknown('helper %s does not evaluate on a single path here (forks: %s)' % (callee.name, [f.get('<forks>') for f in finals][:2]))
         fe = finals[0]
+        if fe.get('<crash>'):
+            raise Crash(fe['<crash>'])
         if fe.get('<outcome>') == 'raise':
             raise Unknown('helper %s raises on this path' % callee.name)
         for nm, args, k in fe.get('<effects>', []):
@@ -308,6 +314,8 @@ class Interp:
         """True / False / None (unknown)."""
         try:
             v = self.value(node, env)
+        except Crash:
+            raise
         except Unknown:
             return None
         if isinstance(v, Opaque):
@@ -428,6 +436,12 @@ class Interp:
                     except Unknown:
                         raise
                     if handled is not None:
+                        return [], [e]
+                if nm not in self.effect_names and self.resolver is not None and self.depth < 3:
+                    callee = self.resolver(v)
+                    if callee is not None:
+                        self._seen_calls.add(id(v))
+                        self._inline(v, callee, e)      # a repository helper called for its effects: interpreted in place
                         return [], [e]
                 if nm in self.effect_names:
                     args = []
